@@ -22,8 +22,8 @@ PROP = "C10"
 RULE = (
     "classes with 3 fields (a_x required, b aliased 'bee' with default, c with default) and 1..2 validators (plus 3 on "
     "a reduced alphabet: 12 (deps, kind) descriptors in quick, 16 in thorough): each validator has an enumerated dependency set (every non-empty subset of the fields, read "
-    "directly, through a helper method, through a property, or through a diamond of helper methods shared by the validators), a kind in {plain, validator(field), validator(discard=g) for "
-    "every field g}, an error style in {raise, yield message, yield (get_alias(self).f, message)}, declared in the class or "
+    "directly, through a helper method, through a property, through a functools.cached_property, or through a diamond of helper methods shared by the validators), a kind in {plain, validator(field), validator(discard=g) for "
+    "every field g}, an error style in {raise, yield message, yield (get_alias(self).f, message), yield (0, message)}, declared in the class or "
     "in a base class; x every datum assigning each field one of {absent, valid, invalid} x every pass/fail vector x aliaser "
     "in {identity, camelCase}. Observed: the exact sequence of validators invoked (each logs its name first), the sorted "
     "error list, whether the object was constructed. Oracle: 25-line reference rule from the property statement; "
@@ -44,7 +44,7 @@ def subsets():
 
 
 KINDS = [("plain", None)] + [("field", f) for f in FIELDS] + [("discard", f) for f in FIELDS]
-STYLES = ["raise", "yield", "yield_path"]
+STYLES = ["raise", "yield", "yield_path", "yield_index0"]
 
 
 def validator_src(name: str, deps, kind, style, by_name: bool = False) -> List[str]:
@@ -62,13 +62,18 @@ def validator_src(name: str, deps, kind, style, by_name: bool = False) -> List[s
     # a_x is read through a diamond of helpers by the first validator (via1 -> h_ax <- via2) and through one
     # branch only by the others: the dependency analysis of a helper must not depend on who asked first
     read_ax = {"v0": "(self.via1(), self.via2())[0]", "v1": "self.via2()", "v2": "self.via1()"}.get(name, "self.a_x")
-    L.append("        _ = (" + ", ".join((read_ax if d == "a_x" else READ[d]) for d in deps) + ",)")
+    # c is read through a property by the first validator and through a functools.cached_property by the others
+    read_c = READ["c"] if name == "v0" else "self.cached_c"
+    L.append("        _ = (" + ", ".join((read_ax if d == "a_x" else read_c if d == "c" else READ[d]) for d in deps) + ",)")
     if style == "raise":
         L.append(f"        if SWITCH[{name!r}]:")
         L.append(f"            raise ValidationError({name + ' failed'!r})")
     elif style == "yield":
         L.append(f"        if SWITCH[{name!r}]:")
         L.append(f"            yield {name + ' failed'!r}")
+    elif style == "yield_index0":  # a path can be an integer (index in a sequence), 0 included
+        L.append(f"        if SWITCH[{name!r}]:")
+        L.append(f"            yield 0, {name + ' failed'!r}")
     else:
         L.append(f"        if SWITCH[{name!r}]:")
         L.append(f"            yield get_alias(self).{deps[0]}, {name + ' failed'!r}")
@@ -93,6 +98,9 @@ def class_src(cname: str, vals: List[tuple], inherit: bool) -> str:
         "        return self.b",
         "    @property",
         "    def prop_c(self):",
+        "        return self.c",
+        "    @functools.cached_property",
+        "    def cached_c(self):",
         "        return self.c",
     ]
     L = []
@@ -169,12 +177,14 @@ def reference(vals: List[tuple], vec: Dict[str, str], fails: Dict[str, bool], al
             loc: tuple = ()
             if style == "yield_path":
                 loc = (aliaser(ALIAS[sorted(deps, key=FIELDS.index)[0]]),)
+            elif style == "yield_index0":
+                loc = (0,)
             if kind == "field":
                 loc = (aliaser(ALIAS[target]),) + loc
             errors.append((loc, msg))
             if kind in ("field", "discard"):
                 discarded.add(target)
-    return log, sorted(errors), not errors
+    return log, sorted(errors, key=repr), not errors
 
 
 class Timeout(Exception):
@@ -212,7 +222,7 @@ def run_class(mod, cname, vals, inherit, st: infra.Stats):
                         out = method(dict(d))
                         got = ("ok", [])
                     except ValidationError as e:
-                        got = ("err", sorted((tuple(x["loc"]), x["err"]) for x in e.errors))
+                        got = ("err", sorted(((tuple(x["loc"]), x["err"]) for x in e.errors), key=repr))
                     except Timeout:
                         got = ("timeout", [])
                     except RecursionError:
@@ -295,7 +305,7 @@ def work(tier, widx, nworkers, st, extra):
             src.append(s)
             metas.append((cname, vals, inherit))
         try:
-            mod = exec_source(PRELUDE + "from apischema.objects import get_alias\n" + "\n".join(src))
+            mod = exec_source(PRELUDE + "import functools\nfrom apischema.objects import get_alias\n" + "\n".join(src))
         except Exception as e:
             st.violation({"signature": {"kind": "harness_error"}, "harness_error": True, "what": "generated module failed", "traceback": repr(e) + "\n" + "\n".join(src)[:1500]})
             batch.clear()
@@ -340,7 +350,7 @@ def replay(path: str) -> int:
     signal.signal(signal.SIGALRM, _alarm)
     vals = eval(v["validators"])
     src = class_src("V0", vals, v["inherit"])
-    mod = exec_source(PRELUDE + "from apischema.objects import get_alias\n" + src)
+    mod = exec_source(PRELUDE + "import functools\nfrom apischema.objects import get_alias\n" + src)
     run_class(mod, "V0", vals, v["inherit"], st)
     hits = [x for x in st.violations if x.get("signature") == v.get("signature")]
     for x in hits[:3]:
